@@ -1,6 +1,26 @@
 package restful
 
-import "net/http"
+import (
+	"context"
+	"net/http"
+	"time"
+)
+
+// vDoneCtx is a request context that is already cancelled.
+type vDoneCtx struct{}
+
+var vClosedChan = func() chan struct{} { c := make(chan struct{}); close(c); return c }()
+
+type vCtxErr struct{}
+
+func (vCtxErr) Error() string { return "context canceled" }
+
+var _ context.Context = vDoneCtx{}
+
+func (vDoneCtx) Deadline() (time.Time, bool)       { return time.Time{}, false }
+func (vDoneCtx) Done() <-chan struct{}             { return vClosedChan }
+func (vDoneCtx) Err() error                        { return vCtxErr{} }
+func (vDoneCtx) Value(key interface{}) interface{} { return nil }
 
 // H_C10: a panic anywhere in the chain becomes one 500 and leaves the container usable.
 // nc/ns/nr: filters per level; recov: 1 = recovery on; enc: 1 = container encoding on; entry: 0 Dispatch, 1 ServeHTTP,
@@ -56,6 +76,12 @@ func H_C10(nc, ns, nr, recov, enc, entry int) {
 	}
 	rec := vNewRec()
 	req := vHdrReq("GET", path, map[string]string{"Accept-Encoding": ae})
+	if nondetBool("cancelled") {
+		// the client has gone away or a deadline has passed: the request's context is done. That changes nothing
+		// in what the property promises about the panic
+		req = req.WithContext(vDoneCtx{})
+		verifCover("context-done")
+	}
 	var escaped interface{}
 	func() {
 		defer func() {
@@ -86,7 +112,8 @@ func H_C10(nc, ns, nr, recov, enc, entry int) {
 		verifAssert(led.clean(), "C10: a compressor was lost, released twice or used after release (C13)")
 		return
 	}
-	raised := recovered > 0 || escaped != nil
+	raised := k.panics > 0
+	verifAssert(raised || (recovered == 0 && escaped == nil), "C10: the recover handler ran or a panic escaped although nothing panicked")
 	verifObserveBool("raised", raised)
 	verifObserveInt("status", rec.code())
 	if raised {
